@@ -2284,11 +2284,22 @@ func ruleAddressScanAllKinds(e *Engine, r *Report) {
 	}
 	// maps whose *values* are scanned: ranged directly, or passed to a helper that ranges its parameter
 	scanned := map[string]bool{}
-	e.forEachInstrRegion(fn, 0, func(in ssa.Instruction) {
-		if rg, ok := in.(*ssa.Range); ok {
+	// (the scan may live in a helper of the predicate: any same-package function below it
+	// that compares addresses counts)
+	comparesAddr := func(g *ssa.Function) bool {
+		if addrEq == nil {
+			return true
+		}
+		return len(e.SitesIn(g, addrEq)) > 0
+	}
+	e.forEachInstrRegion(fn, 2, func(in ssa.Instruction) {
+		if rg, ok := in.(*ssa.Range); ok && comparesAddr(in.Parent()) {
 			if f, _, ok := loadedField(rg.X); ok {
 				scanned[f.Name()] = true
 			}
+		}
+		if in.Parent() != fn {
+			return
 		}
 		if c, ok := in.(*ssa.Call); ok {
 			g := c.Call.StaticCallee()
@@ -2439,4 +2450,226 @@ func ruleTanNewLogOrder(e *Engine, r *Report) {
 		})
 	}
 	r.floor("MPT-tan-newlog-order", n, 1)
+}
+
+// ruleConfigChangeClearsPending (C07, C17): applying (or rejecting) a
+// membership change of any kind clears the leader's one-pending-change flag
+// on every path of the ConfigChangeEvent handler; a kind that keeps the flag
+// set turns every later membership change into an empty entry.
+func ruleConfigChangeClearsPending(e *Engine, r *Report) {
+	clrP := r.need(raftT + "clearPendingConfigChange")
+	tbl, err := e.RaftHandlerTable()
+	if clrP == nil || err != nil {
+		return
+	}
+	clears := e.throughHelpers(func(c ssa.CallInstruction) bool { return e.CallsTo(c, clrP) })
+	seen := map[*ssa.Function]bool{}
+	for _, c := range tbl.Cells {
+		if c.Type != "ConfigChangeEvent" || c.Fn == nil || seen[c.Fn] {
+			continue
+		}
+		seen[c.Fn] = true
+		res := e.findPath(c.Fn, nil, isReturn, clears, nil)
+		w := []string{}
+		if res.Found {
+			w = res.Trace(e)
+		}
+		r.check(!res.Found, "MPT-cc-clears-pending", "every path of "+fname(c.Fn)+" clears the pending-config-change flag", e.pos(c.Fn.Pos()),
+			"whatever kind of change was applied or rejected, the next one can be proposed", "a config change of some kind is applied without clearing the pending flag: every later membership change is dropped while this replica stays leader", w...)
+	}
+	r.floor("MPT-cc-clears-pending", len(seen), 1)
+}
+
+// ruleRemovedLeaderStepsDown (C18, C07): when the membership change removes
+// this replica and it is the leader, it becomes a follower — on every path,
+// whatever else is going on (a pending leadership transfer included).
+func ruleRemovedLeaderStepsDown(e *Engine, r *Report) {
+	rm := r.need(raftT + "removeNode")
+	selfF := r.needField("internal/raft", "raft", "replicaID")
+	stateF := r.needField("internal/raft", "raft", "state")
+	if rm == nil || selfF == nil || stateF == nil {
+		return
+	}
+	isLeader := r.helper(raftT + "isLeader")
+	followerC := e.Const("internal/raft", "follower")
+	leaderC := e.Const("internal/raft", "leader")
+	// "steps down": a call that on every path stores state = follower
+	stepDown := e.throughHelpers(func(c ssa.CallInstruction) bool {
+		for _, g := range e.Callees(c) {
+			hit := false
+			forEachInstr(g, func(in ssa.Instruction) {
+				if st, ok := in.(*ssa.Store); ok {
+					if f, _, ok := fieldOfAddr(st.Addr); ok && f == stateF && followerC != nil && constV(followerC)(st.Val) {
+						hit = true
+					}
+				}
+			})
+			if hit {
+				return true
+			}
+		}
+		return false
+	})
+	var notLeader []Req
+	if isLeader != nil {
+		notLeader = append(notLeader, reqBool("", e.callV(isLeader), false))
+	}
+	if leaderC != nil {
+		notLeader = append(notLeader, reqCmp("", "!=", fieldV(stateF), constV(leaderC)))
+	}
+	exempt := reqAny("the removed replica is another one, or this replica is not the leader",
+		append(notLeader, reqCmp("", "!=", fieldV(selfF), anyV()))...)
+	res := e.pathUnless(rm, nil, isReturn, stepDown, exempt)
+	w := []string{}
+	if res.Found {
+		w = res.Trace(e)
+	}
+	r.check(!res.Found, "MPT-removed-leader-steps-down", "removeNode: a leader that removed itself becomes follower on every path", e.pos(rm.Pos()),
+		"no path with (removed == self, leader) returns without the step down", "a leader can apply its own removal and stay leader (e.g. while a leadership transfer is pending): the remaining members never elect a leader of their own", w...)
+}
+
+// ruleConfirmFromAllVoters (C18, C06): a read confirmation is counted for
+// every member the quorum is computed over (full members and witnesses): the
+// confirm step is not behind a lookup in the full-member map only.
+func ruleConfirmFromAllVoters(e *Engine, r *Report) {
+	confirm := r.need("(*internal/raft.readIndex).confirm")
+	remotes := r.needField("internal/raft", "raft", "remotes")
+	if confirm == nil || remotes == nil {
+		return
+	}
+	votersOnly := func(in ssa.Instruction) (bool, string) {
+		for _, f := range FactsAt(in) {
+			ex, ok := f.V.(*ssa.Extract)
+			if !ok || ex.Index != 1 || !f.Pol {
+				continue
+			}
+			lk, ok := ex.Tuple.(*ssa.Lookup)
+			if ok && lk.CommaOk && fieldV(remotes)(lk.X) {
+				return true, e.ipos(lk)
+			}
+		}
+		return false, ""
+	}
+	n := 0
+	var walk func(s ssa.Instruction, depth int)
+	walk = func(s ssa.Instruction, depth int) {
+		n++
+		bad, at := votersOnly(s)
+		r.check(!bad, "GD-confirm-voters", "read confirmation reaches readIndex.confirm from "+fname(s.Parent())+" for witnesses too", e.ipos(s),
+			"not restricted to the full-member map", "the confirmation is counted only when the sender is in raft.remotes (test at "+at+"): a witness' confirmation is dropped although the quorum counts witnesses")
+		if depth == 0 {
+			return
+		}
+		for _, cs := range e.CallerSites(s.Parent()) {
+			if cs.Common().StaticCallee() == nil || !e.IsLive(cs.Parent()) {
+				continue
+			}
+			walk(cs.(ssa.Instruction), depth-1)
+		}
+	}
+	for _, s := range e.CallerSites(confirm) {
+		if e.IsLive(s.Parent()) {
+			walk(s.(ssa.Instruction), 2)
+		}
+	}
+	r.floor("GD-confirm-voters", n, 2)
+}
+
+// ruleSendQueueWorkerCleanup (C17): the worker that drains a send queue
+// removes the queue from the transport's map when it ends, for whatever
+// reason (failure, idle timeout, stop): otherwise later messages to that
+// host are queued where nobody reads them.
+func ruleSendQueueWorkerCleanup(e *Engine, r *Report) {
+	cap := r.need("(*internal/transport.Transport).connectAndProcess")
+	if cap == nil {
+		return
+	}
+	delQueue := func(c ssa.CallInstruction) bool {
+		b, ok := c.Common().Value.(*ssa.Builtin)
+		if !ok || b.Name() != "delete" || len(c.Common().Args) == 0 {
+			return false
+		}
+		f, _, ok := loadedField(c.Common().Args[0])
+		return ok && f.Name() == "queues"
+	}
+	removes := e.throughHelpers(delQueue)
+	n := 0
+	for _, s := range e.CallerSites(cap) {
+		if !e.IsLive(outermostFn(s.Parent())) {
+			continue
+		}
+		n++
+		res := e.findPath(s.Parent(), s.(ssa.Instruction), isReturn, removes, nil)
+		w := []string{}
+		if res.Found {
+			w = res.Trace(e)
+		}
+		r.check(!res.Found, "PAIR-sendqueue-cleanup", "send-queue worker in "+fname(s.Parent())+" removes its queue when connectAndProcess returns", e.ipos(s),
+			"every exit of the worker deletes the queue from the map", "the worker can end (e.g. idle timeout, a graceful end) and leave its queue in the map: later messages to that host are never sent and nothing reports it", w...)
+	}
+	r.floor("PAIR-sendqueue-cleanup", n, 1)
+}
+
+// ruleLogDBDirs (C20, C10): whoever opens the log store passes the data
+// directory and the WAL (low latency) directory each from its own source:
+// the tool must open the store exactly where the NodeHost will.
+func ruleLogDBDirs(e *Engine, r *Report) {
+	create := e.Method("config", "LogDBFactory", "Create")
+	n := 0
+	isDirSrc := func(idx int) func(ssa.Value) bool {
+		return func(v ssa.Value) bool {
+			ex, ok := v.(*ssa.Extract)
+			if !ok || ex.Index != idx {
+				return false
+			}
+			c, ok := ex.Tuple.(*ssa.Call)
+			if !ok {
+				return false
+			}
+			sc := c.Call.StaticCallee()
+			return sc != nil && (sc.Name() == "GetLogDBDirs" || sc.Name() == "CreateNodeHostDir")
+		}
+	}
+	for _, fn := range e.ScopeFuncs() {
+		if !e.IsLive(outermostFn(fn)) {
+			continue
+		}
+		forEachCall(fn, func(s ssa.CallInstruction) {
+			args := s.Common().Args
+			isOpen := false
+			if s.Common().IsInvoke() {
+				isOpen = create != nil && s.Common().Method == create
+			} else if sc := s.Common().StaticCallee(); sc != nil && sc.Pkg != nil && strings.HasSuffix(sc.Pkg.Pkg.Path(), "internal/logdb") {
+				isOpen = strings.HasPrefix(sc.Name(), "NewDefaultLogDB") || strings.HasPrefix(sc.Name(), "NewTanLogDB")
+			}
+			if !isOpen || len(args) < 2 {
+				return
+			}
+			dirs, ll := args[len(args)-2], args[len(args)-1]
+			if !isStringSlice(dirs.Type()) || !isStringSlice(ll.Type()) {
+				return
+			}
+			// pass-through inside a factory: both are parameters
+			if _, ok := dirs.(*ssa.Parameter); ok {
+				if _, ok := ll.(*ssa.Parameter); ok {
+					return
+				}
+			}
+			n++
+			ok0 := e.dependsOn(dirs, isDirSrc(0), 0)
+			ok1 := e.dependsOn(ll, isDirSrc(1), 0)
+			r.check(ok0 && ok1, "DEP-logdb-dirs", "log store opened in "+fname(fn)+" with its data dir and WAL dir #"+itoa(n), e.ipos(s),
+				"data dirs from the environment's first directory, WAL dirs from its second", "the log store is opened with directories that are not the environment's (data, WAL) pair in that order: the tool and the NodeHost open different stores when WALDir is set")
+		})
+	}
+	r.floor("DEP-logdb-dirs", n, 3)
+}
+
+func isStringSlice(t types.Type) bool {
+	s, ok := t.Underlying().(*types.Slice)
+	if !ok {
+		return false
+	}
+	b, ok := s.Elem().Underlying().(*types.Basic)
+	return ok && b.Kind() == types.String
 }
